@@ -2,7 +2,7 @@
 
 Level: fault enumeration.  For every generated base history the check first runs it fault-free and counts the
 callback deliveries M; it then re-runs the history once for every pair (delivery position k < M, fault kind) and
-appends the closing sequence ``enable; enable``.
+appends the closing sequence ``enable; dispatch; enable; dispatch; enable``.
 """
 import collections
 
@@ -14,13 +14,14 @@ from vlib import worldops
 
 ID = 'C04'
 LEVEL = 'fault_enumeration'
-BUDGET = {'quick': 400, 'thorough': 1500}
+BUDGET = {'quick': 300, 'thorough': 1500}
 RULE = ('Hypothesis-generated base histories (dispatch / disable / enable / add_handler / remove_handler over 1-4 '
         'recorder handlers listening to subsets of 4 event names, on a plain EventDispatcher or on a World used '
         'as dispatcher). Each base history is executed fault-free and then once for EVERY pair (global delivery '
         'position k, fault in {raise RuntimeError, raise Quit, raise SwitchWorld, set dispatch_enabled=False, '
         're-entrant dispatch_enabled=True, disable-then-enable inside the callback}), '
-        'followed by enable; enable. Oracle = trace invariants: no '
+        'followed by enable; dispatch; enable; dispatch; enable. Oracle = trace invariants: an event dispatched while '
+        'dispatching is enabled (also after a release cut short by an exception) reaches its listeners at once; no '
         'callback while disabled (except the remaining listeners of the very occurrence during which a callback '
         'disabled dispatching), never the same (occurrence, listener) twice, released occurrences reach each '
         'listener in dispatch order, every normally returning enable that leaves dispatching enabled has '
@@ -44,6 +45,7 @@ FINDINGS = {}
 EVENTS = ['a', 'b', 'c', 'd']
 FAULTS = ['RuntimeError', 'Quit', 'SwitchWorld', 'disable', 'enable', 'toggle']
 ENABLE_BUDGET = 100000
+CLOSING = [['enable'], ['dispatch', 0], ['enable'], ['dispatch', 5], ['enable']]
 
 
 class Boom(RuntimeError):
@@ -151,7 +153,7 @@ class Execution:
         d['fault'] = list(self.fault) if self.fault else None
         if self.fault:
             d['fault_kind'] = FAULTS[self.fault[1]]
-        ops = self.case['ops'] + [['enable'], ['enable']]
+        ops = self.case['ops'] + CLOSING
         d['op'] = ops[self.step_ix] if 0 <= self.step_ix < len(ops) else None
         d['log'] = self.log[-12:]
         raise PropertyViolation(clause, d)
@@ -255,9 +257,19 @@ class Execution:
             self.queued[token] = {'event': ev, 'must': bool(listeners)}
             if listeners:
                 self.incomplete.append(token)
+        was_enabled, faults_before = self.enabled, self.flags['fault_fired']
         r = self.guarded(lambda: self.d.dispatch(ev, Tok(token, ev)), 'dispatch')
         if self.current_exc is not None and r != 'raised':
             self.viol('injected_exception_swallowed_by_dispatch', injected=repr(self.current_exc))
+        if was_enabled and self.enabled and r != 'raised' and self.flags['fault_fired'] == faults_before:
+            # dispatching is enabled (whatever happened before - also after a release that a callback cut short
+            # by raising): the event reaches its listeners now, it is not silently put aside
+            for h in listeners:
+                if (token, h) not in self.delivered:
+                    self.viol('event_dispatched_while_enabled_not_delivered_at_once', event=ev, token=token,
+                              handler=h, reads_enabled=bool(self.d.dispatch_enabled))
+            if listeners:
+                self.flags['enabled_dispatch_after_a_fault' if faults_before else 'enabled_dispatch'] += 1
 
     def op_disable(self):
         self.guarded(lambda: setattr(self.d, 'dispatch_enabled', False), 'disabling')
@@ -355,7 +367,7 @@ class Execution:
         for i in range(self.nfixed):
             if self.case['reg'] >> i & 1:
                 self.op_add(i)
-        ops = self.case['ops'] + [['enable'], ['enable']]
+        ops = self.case['ops'] + CLOSING
         for self.step_ix, op in enumerate(ops):
             getattr(self, 'op_' + op[0])(*op[1:])
         if not self.d.dispatch_enabled:
